@@ -456,6 +456,12 @@ package data
 //@ iface rowmajor:Shape(x) returns (s)
 //@   ensures s.id == x.g_shapeid && s.off == 0 && len(s) == x.rank
 //@   assigns nothing
+//@ iface rowmajor:Contiguous(x) returns (b)
+//@   assigns nothing
+//@ iface rowmajor:NewIndex(x, val) returns (r)
+//@   fresh r
+//@   ensures len(r) == x.rank && forall(k, 0, x.rank, r[k] == val)
+//@   assigns nothing
 //@ iface rowmajor:Get(x, loc) returns (v)
 //@   requires len(loc) == x.rank && forall(k, 0, x.rank, 0 <= loc[k] && loc[k] < x.shape[k])
 //@   ensures forall(j, 0, iprod(x.shape, x.rank), implies(forall(k, 0, x.rank, loc[k] == rmc(x.shape, j, x.rank, k)), v == x.at(j)))
